@@ -7,6 +7,8 @@ import (
 const (
 	ProtocolVersion        = 0x00001000
 	DefaultUpstreamMtuSize = 0xFF
+	// MaxProbeFragmentSize is the largest downstream fragment size a client may ask the server to probe
+	MaxProbeFragmentSize = 0xFFFF
 )
 
 func secs(i int) time.Duration {
